@@ -126,8 +126,8 @@ static void prepare_matrix(Subject& S, const MatL& A, const std::string& desc)
     if (!(one.norm() > 1e-6L)) one = S.starts[0];
     S.starts.push_back(two);
     S.starts.push_back(one);
-    v.setOnes(); S.starts.push_back(v);                                          // 4: ones
-    for (int i = 0; i < n; i++) v[i] = (i % 2 ? -1 : 1); S.starts.push_back(v);  // 5: alternating
+    v.setOnes(); v *= CL(1e15L); S.starts.push_back(v);                          // 4: ones, un-normalized (norm ~1e15)
+    for (int i = 0; i < n; i++) v[i] = CL(LD(i % 2 ? -1 : 1) * 1e-15L); S.starts.push_back(v);  // 5: alternating, tiny norm
     for (int i = 1; i < n; i++) { v.setZero(); v[i] = 1; S.starts.push_back(v); }
     S.key = desc;
 }
@@ -199,7 +199,7 @@ static void explore_subject(Subject S, int rot, Local& L, const std::string& rep
             const bool full = PLAN.thorough && !PLAN.light;
             const int nm = full ? 6 : 4, nt = full ? 5 : 3;
             std::vector<OpDesc> sops;
-            const size_t nstart = full ? S.starts.size() : std::min<size_t>(S.starts.size(), 5);
+            const size_t nstart = full ? S.starts.size() : std::min<size_t>(S.starts.size(), 6);
             for (size_t j = 0; j < nstart; j++) sops.push_back(op_initv(int(j)));
             const int ninit = int(sops.size());
             sops.push_back(op_init0());
